@@ -266,8 +266,11 @@ impl CelsData<RawPixels> {
             }
         }
         let validate_ref = |id: CelId| {
+            // The linked frame comes straight from the file: check it before
+            // using it as an index.
+            let in_bounds = (id.frame as u32) < num_frames && (id.layer as usize) < num_layers;
             let index = id.frame as usize * num_layers + id.layer as usize;
-            if is_linkable_cel[index] {
+            if in_bounds && is_linkable_cel[index] {
                 Ok(())
             } else {
                 Err(AsepriteParseError::InvalidInput(format!(
